@@ -23,9 +23,13 @@ func NewListRange(expression string) (lr *ListRange, err error) {
 	if bang < 0 {
 		return nil, listRangeErr
 	}
-	if lr.Selector, err = ParsePathExpression(expression[:bang]); err != nil {
+	var selector *PathMatchExpression
+	if selector, err = ParsePathExpression(expression[:bang]); err != nil {
 		return nil, err
 	}
+	// rows of the selected list only, not of the lists nested inside its items
+	selector.matchExact = true
+	lr.Selector = selector
 	rowsExpression := expression[bang+1:]
 	startEndStr := strings.Split(rowsExpression, "-")
 	if lr.StartRow, err = strconv.ParseInt(startEndStr[0], 10, 64); err != nil {
